@@ -22,6 +22,7 @@ pub struct Norm {
     pub drop_calls: Vec<String>,
     pub opaque_macros: Vec<String>,
     pub rename_calls: Vec<(String, String)>,
+    pub str_params: Vec<String>,
     tmp_counter: usize,
 }
 
@@ -90,6 +91,119 @@ fn contains_let(e: &Expr) -> bool {
     }
 }
 
+/// all alternatives of a pattern with every (nested) or-pattern distributed
+fn expand_pat(p: &Pat) -> Vec<Pat> {
+    fn product<T: Clone>(lists: Vec<Vec<T>>) -> Vec<Vec<T>> {
+        let mut acc: Vec<Vec<T>> = vec![vec![]];
+        for l in lists {
+            let mut next = vec![];
+            for a in &acc {
+                for x in &l {
+                    let mut b = a.clone();
+                    b.push(x.clone());
+                    next.push(b);
+                }
+            }
+            acc = next;
+        }
+        acc
+    }
+    match p {
+        Pat::Or(o) => o.cases.iter().flat_map(expand_pat).collect(),
+        Pat::Paren(pp) => expand_pat(&pp.pat),
+        Pat::Tuple(t) => {
+            let lists: Vec<Vec<Pat>> = t.elems.iter().map(expand_pat).collect();
+            product(lists)
+                .into_iter()
+                .map(|els| {
+                    let mut nt = t.clone();
+                    nt.elems = els.into_iter().collect();
+                    Pat::Tuple(nt)
+                })
+                .collect()
+        }
+        Pat::TupleStruct(t) => {
+            let lists: Vec<Vec<Pat>> = t.elems.iter().map(expand_pat).collect();
+            product(lists)
+                .into_iter()
+                .map(|els| {
+                    let mut nt = t.clone();
+                    nt.elems = els.into_iter().collect();
+                    Pat::TupleStruct(nt)
+                })
+                .collect()
+        }
+        Pat::Struct(st) => {
+            let lists: Vec<Vec<Pat>> = st.fields.iter().map(|f| expand_pat(&f.pat)).collect();
+            product(lists)
+                .into_iter()
+                .map(|els| {
+                    let mut ns = st.clone();
+                    for (f, np) in ns.fields.iter_mut().zip(els.into_iter()) {
+                        *f.pat = np;
+                    }
+                    Pat::Struct(ns)
+                })
+                .collect()
+        }
+        Pat::Ident(pi) if pi.subpat.is_some() => {
+            let (at, sub) = pi.subpat.as_ref().unwrap();
+            expand_pat(sub)
+                .into_iter()
+                .map(|np| {
+                    let mut ni = pi.clone();
+                    ni.subpat = Some((*at, Box::new(np)));
+                    Pat::Ident(ni)
+                })
+                .collect()
+        }
+        Pat::Reference(r) => expand_pat(&r.pat)
+            .into_iter()
+            .map(|np| {
+                let mut nr = r.clone();
+                *nr.pat = np;
+                Pat::Reference(nr)
+            })
+            .collect(),
+        other => vec![other.clone()],
+    }
+}
+
+fn has_binding(p: &Pat) -> bool {
+    struct V(bool);
+    impl<'ast> syn::visit::Visit<'ast> for V {
+        fn visit_pat_ident(&mut self, i: &'ast PatIdent) {
+            // an identifier starting with a lower-case letter is a binding (constants/unit variants are upper-case)
+            if i.ident.to_string().chars().next().map(|c| c.is_lowercase() || c == '_').unwrap_or(false) {
+                self.0 = true;
+            }
+            syn::visit::visit_pat_ident(self, i);
+        }
+    }
+    let mut v = V(false);
+    syn::visit::Visit::visit_pat(&mut v, p);
+    v.0
+}
+
+/// a nested or-pattern (below the top level) in a pattern that binds something
+fn needs_or_distribution(p: &Pat) -> bool {
+    struct V(bool);
+    impl<'ast> syn::visit::Visit<'ast> for V {
+        fn visit_pat_or(&mut self, _: &'ast PatOr) {
+            self.0 = true;
+        }
+    }
+    let inner_has_or = |q: &Pat| {
+        let mut v = V(false);
+        syn::visit::Visit::visit_pat(&mut v, q);
+        v.0
+    };
+    match p {
+        Pat::Or(o) => o.cases.iter().any(|c| needs_or_distribution(c)),
+        other => inner_has_or(other) && has_binding(other),
+    }
+}
+
 fn pat_binds_by_mut_ref(p: &Pat) -> bool {
     // conservative syntactic test: an identifier pattern with `ref mut`
     struct V(bool);
@@ -128,6 +242,7 @@ impl Norm {
                 .as_object()
                 .map(|o| o.iter().map(|(k, v)| (k.clone(), v.as_str().unwrap().to_string())).collect())
                 .unwrap_or_default(),
+            str_params: strs("str_params"),
             tmp_counter: 0,
         }
     }
@@ -466,6 +581,27 @@ impl VisitMut for Norm {
                     self.log("N9-for-in-ref", sp);
                 }
             }
+            Expr::Call(c)
+                if matches!(&*c.func, Expr::Path(p) if p.path.segments.len() == 2
+                    && p.path.segments[1].ident == "from_iter"
+                    && (p.path.segments[0].ident == "Set" || p.path.segments[0].ident == "HashSet"))
+                    && c.args.len() == 1
+                    && matches!(&c.args[0], Expr::Array(_)) =>
+            {
+                // N8c: Set::from_iter([a, b, ..]) => { let mut s = Set::new(); s.insert(a); ..; s }
+                if let Expr::Array(arr) = &c.args[0] {
+                    let sp = c.paren_token.span.open();
+                    let elems: Vec<&Expr> = arr.elems.iter().collect();
+                    let tmp = self.fresh("set");
+                    let ne: Expr = parse_quote!({
+                        let mut #tmp = Set::new();
+                        #( #tmp.insert(#elems); )*
+                        #tmp
+                    });
+                    *e = ne;
+                    self.log("N8c-set-from_iter-array", sp);
+                }
+            }
             Expr::Call(c) if !self.rename_calls.is_empty() => {
                 if let Expr::Path(p) = &mut *c.func {
                     if let Some(last) = p.path.segments.last_mut() {
@@ -511,6 +647,13 @@ impl VisitMut for Norm {
                         if let Expr::Lit(ExprLit { lit: Lit::Str(_), .. }) = &*mc.receiver {
                             *e = parse_quote!(hq_format());
                             self.log("N15-strlit-opaque", sp);
+                        } else if let Expr::Path(p) = &*mc.receiver {
+                            let n = p.path.segments.iter().map(|s| s.ident.to_string()).collect::<Vec<_>>().join("::");
+                            if self.str_params.iter().any(|x| *x == n) {
+                                let recv = &mc.receiver;
+                                *e = parse_quote!(hq_str_to_string(#recv));
+                                self.log("N15b-str-to_string", sp);
+                            }
                         }
                     }
                     "all" | "any" if mc.args.len() == 1 => {
@@ -622,6 +765,15 @@ impl VisitMut for Norm {
                 let mut new_arms = vec![];
                 let mut changed = false;
                 for arm in m.arms.iter() {
+                    if needs_or_distribution(&arm.pat) {
+                        for alt in expand_pat(&arm.pat) {
+                            let mut a = arm.clone();
+                            a.pat = alt;
+                            new_arms.push(a);
+                        }
+                        changed = true;
+                        continue;
+                    }
                     if let Pat::Or(po) = &arm.pat {
                         if pat_binds_by_mut_ref(&arm.pat) {
                             for case in po.cases.iter() {
